@@ -46,7 +46,12 @@ def bf_histories(rp, seed, tier):
                       'Backfilling scheduler: add / remove / re-add pilots, pilot state notifications, submissions, task completions' % (n, n_hist))
 
 
-CHECKS = {'sched-histories': sched_histories, 'bf-histories': bf_histories}
+def lm_placements(rp, seed, tier):
+    from harness import lm_sim
+    return lm_sim.run_all(rp, tier)
+
+
+CHECKS = {'sched-histories': sched_histories, 'bf-histories': bf_histories, 'lm-placements': lm_placements}
 
 
 def main():
